@@ -90,7 +90,7 @@ Theorem chunked_message_no_trailer line info block h cs e0 rest :
   block <> [] -> prefixb CRLF block = false -> cut (CRLF ++ CRLF) (block ++ CRLF) = None ->
   hparse [] block = Some h ->
   (match k with Server => negb (hmem K_HOST h) | Client => false end) = false ->
-  c_hdrs PC true h = HOk ->
+  c_hdrs PC true h = HOk -> connect_response PC k line = false ->
   hget K_TE h = Some CHUNKED -> hget K_CE h = None ->
   forallb chunk_ok cs = true -> ext_ok e0 = true ->
   (match k with Server => nobody info && nonempty_b (concat_bytes (map fst cs)) | Client => false end) = false ->
@@ -99,8 +99,8 @@ Theorem chunked_message_no_trailer line info block h cs e0 rest :
        {| m_line := line; m_hdrs := hdel K_TE (hset K_CL (dec_of_N (N.of_nat (List.length (concat_bytes (map fst cs))))) h);
           m_body := concat_bytes (map fst cs) |}.
 Proof.
-  intros Hline Hstart Hp11 Hbne Hbpre Hbcut Hparse Hhost Hhdrs Hte Hce Hcs He0 Hnobody.
-  rewrite (headers_phase PC k line info block h _ Hline Hstart Hbne Hbpre Hbcut Hparse); [| rewrite Hp11; exact Hhost | rewrite Hp11; exact Hhdrs].
+  intros Hline Hstart Hp11 Hbne Hbpre Hbcut Hparse Hhost Hhdrs Hnc Hte Hce Hcs He0 Hnobody.
+  rewrite (headers_phase PC k line info block h _ Hline Hstart Hbne Hbpre Hbcut Hparse); [| rewrite Hp11; exact Hhost | rewrite Hp11; exact Hhdrs | exact Hnc].
   rewrite after_headers_eq, (parse_body_eq PC).
   assert (Hdet : pre_body PC (after_hdrs line info h) = inl (chunked_i line info h)).
   { unfold pre_body. change (i_len (after_hdrs line info h)) with (@None N). change (i_chunked (after_hdrs line info h)) with false.
@@ -140,7 +140,7 @@ Theorem chunked_message_exact line info block h cs e0 rest :
   block <> [] -> prefixb CRLF block = false -> cut (CRLF ++ CRLF) (block ++ CRLF) = None ->
   hparse [] block = Some h ->
   (match k with Server => negb (hmem K_HOST h) | Client => false end) = false ->
-  c_hdrs PC true h = HOk ->
+  c_hdrs PC true h = HOk -> connect_response PC k line = false ->
   hget K_TE h = Some CHUNKED -> hget K_CE h = None ->
   forallb chunk_ok cs = true -> ext_ok e0 = true ->
   (match k with Server => nobody info && nonempty_b (concat_bytes (map fst cs)) | Client => false end) = false ->
@@ -149,7 +149,7 @@ Theorem chunked_message_exact line info block h cs e0 rest :
   (s2, {| m_line := line; m_hdrs := hdel K_TE (hset K_CL (dec_of_N (N.of_nat (List.length (concat_bytes (map fst cs))))) h);
           m_body := concat_bytes (map fst cs) |} :: m2, e).
 Proof.
-  intros A1 A2 A3 A4 A5 A6 A7 A8 A9 A10 A11 A12 A13 A14.
+  intros A1 A2 A3 A4 A5 A6 A7 A8 A9 A9c A10 A11 A12 A13 A14.
   apply parse_first_message; [| apply (chunked_message_no_trailer line info block h cs e0 rest); assumption].
   rewrite !app_length. unfold CRLF. cbn [List.length]. lia.
 Qed.
@@ -160,7 +160,7 @@ Theorem chunked_message_trailers line info block h cs e0 tblock tr tv ns h' rest
   block <> [] -> prefixb CRLF block = false -> cut (CRLF ++ CRLF) (block ++ CRLF) = None ->
   hparse [] block = Some h ->
   (match k with Server => negb (hmem K_HOST h) | Client => false end) = false ->
-  c_hdrs PC true h = HOk ->
+  c_hdrs PC true h = HOk -> connect_response PC k line = false ->
   hget K_TE h = Some CHUNKED -> hget K_CE h = None ->
   forallb chunk_ok cs = true -> ext_ok e0 = true ->
   tblock <> [] -> prefixb CRLF tblock = false -> cut (CRLF ++ CRLF) (tblock ++ CRLF) = None ->
@@ -173,9 +173,9 @@ Theorem chunked_message_trailers line info block h cs e0 tblock tr tv ns h' rest
   (s2, {| m_line := line; m_hdrs := hdel K_TE (hset K_CL (dec_of_N (N.of_nat (List.length (concat_bytes (map fst cs))))) h');
           m_body := concat_bytes (map fst cs) |} :: m2, e).
 Proof.
-  intros Hline Hstart Hp11 Hbne Hbpre Hbcut Hparse Hhost Hhdrs Hte Hce Hcs He0 Htne Htpre Htcut Htparse Htv Htvne Hnames Hmerge Hnobody.
+  intros Hline Hstart Hp11 Hbne Hbpre Hbcut Hparse Hhost Hhdrs Hnc Hte Hce Hcs He0 Htne Htpre Htcut Htparse Htv Htvne Hnames Hmerge Hnobody.
   apply parse_first_message; [rewrite !app_length; unfold CRLF; cbn [List.length]; lia|].
-  rewrite (headers_phase PC k line info block h _ Hline Hstart Hbne Hbpre Hbcut Hparse); [| rewrite Hp11; exact Hhost | rewrite Hp11; exact Hhdrs].
+  rewrite (headers_phase PC k line info block h _ Hline Hstart Hbne Hbpre Hbcut Hparse); [| rewrite Hp11; exact Hhost | rewrite Hp11; exact Hhdrs | exact Hnc].
   rewrite after_headers_eq, (parse_body_eq PC).
   assert (Hdet : pre_body PC (after_hdrs line info h) = inl (chunked_i line info h)).
   { unfold pre_body. change (i_len (after_hdrs line info h)) with (@None N). change (i_chunked (after_hdrs line info h)) with false.
@@ -198,3 +198,50 @@ Proof.
 Qed.
 
 End Chunked.
+
+Section Connect.
+Variable PC : callees.
+Notation L := reference.
+(* ---- a message whose framing fields the client machine strips (c_connect: response to a CONNECT request; RFC 7231 4.3.6:
+        "a client MUST ignore any Content-Length or Transfer-Encoding received in a successful response to CONNECT"):
+        it ends with its header section whatever Transfer-Encoding / Content-Length it carries, is delivered with an empty
+        body, without those fields and with Content-Length: 0; everything after the empty line is parsed as what follows ---- *)
+Theorem connect_response_message line info block h rest :
+  cut CRLF line = None -> c_start PC line = SlOk info ->
+  block <> [] -> prefixb CRLF block = false -> cut (CRLF ++ CRLF) (block ++ CRLF) = None ->
+  hparse [] block = Some h ->
+  c_hdrs PC (p11 info) h = HOk -> c_connect PC line = true -> hget K_CE h = None ->
+  parse L PC Client init (line ++ CRLF ++ block ++ CRLF ++ CRLF ++ rest) =
+  let '(s2, m2, e) := parse L PC Client init rest in
+  (s2, {| m_line := line; m_hdrs := hset K_CL (dec_of_N 0) (hdel K_TE (hdel K_CL h)); m_body := [] |} :: m2, e).
+Proof.
+  intros Hline Hstart Hbne Hbpre Hbcut Hparse Hhdrs Hc Hce.
+  assert (T : turn_of L PC Client {| buf := line ++ CRLF ++ block ++ CRLF ++ CRLF ++ rest; cur := None |} =
+              TMsg {| buf := rest; cur := None |} {| m_line := line; m_hdrs := hset K_CL (dec_of_N 0) (hdel K_TE (hdel K_CL h)); m_body := [] |}).
+  { rewrite turn_of_eq. cbn [cur buf].
+    unfold parse_startline. cbn [allow_lf reference andb].
+    assert (Ecut : cut CRLF (line ++ CRLF ++ block ++ CRLF ++ CRLF ++ rest) = Some (line, block ++ CRLF ++ CRLF ++ rest)).
+    { apply (cut_CRLF_none_app line _ Hline). }
+    unfold contains. rewrite Ecut. cbn [le_bytes]. rewrite Ecut, Hstart.
+    rewrite after_startline_eq. cbn [i_phase i_le i_hdrs].
+    unfold parse_headers. cbn [le_bytes eager_hdr reference negb].
+    pose proof (prefixb_CRLF_block block (CRLF ++ rest) Hbne Hbpre) as Epre.
+    rewrite Epre, (cut_CRLF2_none_app block rest Hbcut (or_intror I)).
+    unfold parse_block. destruct block as [|c0 block]; [congruence|]. cbn [nonempty_b]. rewrite Hparse.
+    unfold on_headers_complete. cbn [i_hdrs i_line set_phase set_hdrs i_info]. rewrite Hhdrs, Hce.
+    assert (Hcr : connect_response PC Client line = true) by exact Hc.
+    destruct (hc_hdrs_connect PC Client line h Hcr) as [Hcl Hte].
+    set (h' := hc_hdrs PC Client line h) in *.
+    rewrite after_headers_eq. unfold parse_body, set_ce, set_phase, set_hdrs.
+    cbn [i_line i_le i_info i_phase i_hdrs i_ce i_len i_chunked i_trailer i_body].
+    unfold determine. cbn [i_line i_le i_info i_phase i_hdrs i_ce i_len i_chunked i_trailer i_body].
+    rewrite Hte, Hcl.
+    destruct (p11 info); unfold set_len; cbn [i_line i_le i_info i_phase i_hdrs i_ce i_len i_chunked i_trailer i_body];
+    unfold on_body_complete; cbn [peek411 reference andb i_line i_le i_info i_phase i_hdrs i_ce i_len i_chunked i_trailer i_body];
+    unfold hmem; rewrite Hcl; cbn [negb andb List.length nonempty_b];
+    subst h'; unfold hc_hdrs; rewrite Hcr; reflexivity. }
+  apply (parse_first_message PC Client); [rewrite !app_length; unfold CRLF; cbn [List.length]; lia | exact T].
+Qed.
+
+
+End Connect.
